@@ -1312,6 +1312,23 @@ theorem c10_from_rest_parked_converges_down (P : RsP) (hfc : 10 ≤ P.fc)
   rw [ht, hp] at r
   exact r
 
+/-- the upward mirror of `c10_from_rest_parked_converges_down` -/
+theorem c10_from_rest_parked_converges_up (P : RsP) (hfo : 10 ≤ P.fo)
+    (hcap : P.fo / 10 + 1 + 10 * P.fo * (taskMargin P + 1) ≤ 600000000) (s : RsT) (dt : Nat) (dts : List Nat)
+    (h0 : s.tstate = 1 ∧ s.rel = 0 ∧ s.pend = 0 ∧ 100 ≤ s.pos ∧ s.pos ≤ 10100 ∧ s.sinceStop + dt < startGate + s.lag)
+    (hb : s.pos - 100 > s.target * 100)
+    (hg : ¬ (P.margin = 0 ∧ reportedPos s.pos = 0)) (hne : dts ≠ [])
+    (hlong : 10000 * (P.fo * 1000) + P.fo * 1000 + 10000 + 100000 * P.fo * (taskMargin P + 1)
+               ≤ (10100 - s.pos) * (P.fo * 1000) + 10000 * C09.sum dts) :
+    Stopped (rsRun P (fireTrig P (rsTick P s dt)) dts) ∧
+    (rsRun P (fireTrig P (rsTick P s dt)) dts).pos - 100 ≤ s.target * 100 ∧
+    (rsRun P (fireTrig P (rsTick P s dt)) dts).pos ≤ s.pos := by
+  obtain ⟨_, _, hm, hp, hu, ht⟩ := task_start_up_parked P s dt h0 hb hg
+  have hpsi : psiU P (fireTrig P (rsTick P s dt)) = (10100 - s.pos) * (P.fo * 1000) := by unfold psiU; rw [hp, hu]; omega
+  have r := c10_task_converges_up P hfo hcap _ hm (by rw [ht]; omega) dts hne (by rw [hpsi]; exact hlong)
+  rw [ht, hp] at r
+  exact r
+
 /-- facade blind: the same parking rule ... -/
 theorem c10_fb_request_parked (P : FbP) (s : FbT) (w : Nat) (hrel : s.rel = 0)
     (hgate : s.sinceStop < startGate + s.lag) :
